@@ -255,12 +255,36 @@ pub fn spec(id: &str) -> Option<Spec> {
             real: vec!["PciTransport::new, get_bar_region, all Transport methods, Drop", "PciRoot::capabilities / bar_info, MmioCam"],
             stubbed: vec!["device: emulated PCI function + virtio-pci structures behind BAR windows (sim/src/pcidev.rs)"],
         },
+        "C07" => Spec {
+            id: "C07",
+            level: "exploration",
+            rule: "hostile batches: a device that reports used ids that are not outstanding / repeated / out of range, arbitrary lengths, used-index jumps forwards and backwards, random response bytes and random configuration space, against the bare queue (well-behaved caller), OwningQueue and all 11 drivers over all 8 transport kinds; oracle = no platform-ledger violation (unshare/dealloc without live matching entry or twice), no slice beyond its buffer, no token handed out twice, every call ends in Ok/Err/clean panic; scribbled batches: the ordinary queue/blk/console/net/owning/vsock scenarios with their full functional oracles while the device overwrites the descriptor table and available ring at operation boundaries; non-trivial = a call completed under hostile input (hostile) / as in the base scenario (scribbled)",
+            batches: vec![
+                b("hostile_queue", scen::c07::hostile_queue, 8000, 200_000),
+                b("hostile_owning", scen::c07::hostile_owning, 4000, 100_000),
+                b("hostile_drivers", scen::c07::hostile_drivers, 8000, 200_000),
+                b("queue_scribbled", scen::c07::queue_scribbled, 4000, 100_000),
+                b("blk_scribbled", scen::c07::blk_scribbled, 2000, 50_000),
+                b("console_scribbled", scen::c07::console_scribbled, 2000, 50_000),
+                b("net_scribbled", scen::c07::net_scribbled, 2000, 50_000),
+                b("owning_scribbled", scen::c07::owning_scribbled, 2000, 50_000),
+                b("vsock_scribbled", scen::c07::vsock_scribbled, 2000, 50_000),
+            ],
+            extras: vec![],
+            assumptions: vec![
+                "allocation-size fields taken from configuration space (sound jacks/streams/chmaps) are capped at 64: allocation failure aborts instead of unwinding",
+                "after a hostile completion the library may return with buffers still shared (leaked); what the device does to them afterwards is not judged",
+                "out-of-bounds / use-after-free inside unsafe blocks that does not surface through the ledger is the ASan engine's job (thorough tier)",
+            ],
+            real: vec!["VirtQueue, OwningQueue, every driver, MmioTransport / PciTransport / SomeTransport"],
+            stubbed: vec!["device: hostile personality + hostile/scribbling device core (sim/src/scen/c07.rs, sim/src/vq.rs)", "platform: SimHal ledger (bouncing)"],
+        },
         _ => return None,
     };
     Some(s)
 }
 
-pub const ALL: &[&str] = &["C01", "C02", "C03", "C04", "C05", "C06", "C08", "C09", "C10", "C11", "C12", "C13", "C14", "C15", "C16", "C17", "C18", "C19", "C20"];
+pub const ALL: &[&str] = &["C01", "C02", "C03", "C04", "C05", "C06", "C07", "C08", "C09", "C10", "C11", "C12", "C13", "C14", "C15", "C16", "C17", "C18", "C19", "C20"];
 
 pub fn find_batch(prop: &str, batch: &str) -> Option<fn()> {
     spec(prop)?.batches.iter().find(|b| b.name == batch).map(|b| b.f)
